@@ -36,13 +36,37 @@ ENCODINGS_ALL = ENCODINGS_QUICK + ['cp1140', 'cp273', 'cp1252', 'cp437']
 _CFG = {}
 
 
+_LIVE = {}
+
+
+def set_live(cfg_obj):
+    """a caller-owned configuration object that a sequence case edits in place between calls"""
+    _LIVE['cfg'] = cfg_obj
+
+
+def apply_edit(cfg, edit):
+    """in-place edit of a configuration object: ['set', bit, key, value] | ['del', bit, key]"""
+    if edit[0] == 'set':
+        cfg[str(edit[1])][edit[2]] = edit[3]
+    elif edit[0] == 'del':
+        cfg[str(edit[1])].pop(edit[2], None)
+    else:
+        raise ValueError(edit)
+
+
 def get_cfg(name):
     """'PKG' -> the packaged bit_config (read from the library under test, it is *configuration*, not code);
     'GENs' -> generated: every bit 2..127 configured, bit b has kind KINDS[(b+s) mod 14]"""
+    if name == 'LIVE':
+        import copy
+        return copy.deepcopy(_LIVE['cfg'])      # the reference reads the content as it is now
     if name not in _CFG:
         if name == 'PKG':
+            # a frozen private copy taken when first asked for: the reference models read this one, so a library that
+            # mutates its own packaged configuration diverges from them instead of dragging them along
+            import copy
             from cardutil.config import config
-            _CFG[name] = config['bit_config']
+            _CFG[name] = copy.deepcopy(config['bit_config'])
         elif name.startswith('GEN'):
             # 'GENs' ascending key order; 'GENsS' the same configuration with its keys in string-sorted order
             # ('10' < '100' < '11' < ... < '2'), as a caller loading it from JSON written with sort_keys would have
@@ -62,6 +86,22 @@ def get_cfg(name):
         else:
             raise ValueError(name)
     return _CFG[name]
+
+
+def lib_cfg(case_or_name, hex_flag=False):
+    """what is handed to the library as iso_config: generated configurations explicitly; the packaged one through
+    the library's own default path (iso_config=None) for binary-bitmap cases and as the live module object for
+    hex-bitmap cases, so that both entry paths are exercised"""
+    name = case_or_name['cfg'] if isinstance(case_or_name, dict) else case_or_name
+    hx = case_or_name['hex'] if isinstance(case_or_name, dict) else hex_flag
+    if name == 'LIVE':
+        return _LIVE['cfg']                      # the library gets the very same object every time
+    if name == 'PKG':
+        if not hx:
+            return None
+        from cardutil.config import config
+        return config['bit_config']
+    return get_cfg(name)
 
 
 def bits_of(cfgname):
